@@ -270,6 +270,9 @@ func runC16(c *eng.Ctx) {
 		}
 	}
 	c.Floor(10)
+	c.Rule("R16.8", "K6")
+	ruleStreamConfigPlumbing(c, "OptimisticConcurrencyControl")
+	c.Floor(3)
 
 	// ---- R16.5
 	c.Rule("R16.5", "K1")
